@@ -23,7 +23,7 @@ UNCHECKED_BY_CONTRACT = {"operator[]"}  # "Out of range errors are detected usin
 
 
 def requests():
-    return [Request(u, fn=[c + "::.*" for c in CLASSES]) for u in UNITS] + [Request("src/buildblock/IndexRange.cxx", fn=["stir::IndexRange::.*"], files=["/repo/src/buildblock/IndexRange.cxx", "/repo/src/include/stir/IndexRange.inl"])]
+    return [Request(u, fn=[c + "::.*" for c in CLASSES + ("stir::FullArrayIterator",)]) for u in UNITS] + [Request("src/buildblock/IndexRange.cxx", fn=["stir::IndexRange::.*"], files=["/repo/src/buildblock/IndexRange.cxx", "/repo/src/include/stir/IndexRange.inl"])]
 
 
 def definitions(units):
@@ -501,6 +501,172 @@ def rule_h_nd_resize_starts_new_rows_empty(ctx, fn):
     return 1
 
 
+def _cmp_of(m, wanted):
+    """m is `A == B` / `A != B` (built-in or overloaded) with {key(A), key(B)} == wanted"""
+    if m.k not in ("BinaryOperator", "CXXOperatorCallExpr") or m.op not in ("==", "!=") or len(m.c) < 2:
+        return False
+    return {key(m.c[-2].strip()), key(m.c[-1].strip())} == set(wanted)
+
+
+def rule_i_full_iteration_skips_empty(ctx, defs):
+    """Full iteration visits each element exactly once: a full iterator is either at the end or its range over the current sub-array
+    is NOT empty (operator* and the `rest == last` test of operator++ rely on it).  Hence (1) in FullArrayIterator::operator++ every
+    load of a new sub-array range (current_rest_iter = X.begin_all()) is followed, on every path to the return, by a test of that
+    range for emptiness; (2) Array<N>::begin_all()/begin_all_const() return (it, end, B, E) only after a test B != E."""
+    RULE = "C11.i-full-iteration-skips-empty"
+    n = 0
+    seen = set()
+    for f in defs:
+        if f.body is None or not f.cfg_raw or (f.file, f.body.line) in seen:
+            continue
+        if f.cls == "stir::FullArrayIterator" and f.short == "operator++" and not f.params:
+            seen.add((f.file, f.body.line))
+            cfg = CFG(f)
+            loads = [m for m in f.walk() if m.k in ("BinaryOperator", "CXXOperatorCallExpr") and m.op == "=" and key(m.c[-2].strip()) == "this.current_rest_iter" and "begin_all" in key(m.c[-1])]
+            if not loads:
+                ctx.unrec(f.qn, "no load of a new sub-array range (current_rest_iter = X.begin_all()) found")
+                continue
+            w = cfg.must_pass_before_exit([m for m in loads if m.i in cfg.pos], lambda x: _cmp_of(x, ("this.current_rest_iter", "this.last_rest_iter")))
+            ok = w is None and all(m.i in cfg.pos for m in loads)
+            ctx.ob(RULE, f.qn + "()", "new-range-tested-for-emptiness", ok, loads[0].where(), "after moving to the next sub-array its range is tested for emptiness before returning" if ok else "operator++ moves to the next sub-array and returns without testing whether it is empty: for an array with an empty row the iterator never equals end_all() again and runs past the data")
+            n += 1
+        elif f.cls == "stir::Array" and f.short in ("begin_all", "begin_all_const") and not f.is_dependent:
+            rets = [m for m in f.walk() if m.k == "ReturnStmt" and any(c.k in ("CXXConstructExpr", "CXXTemporaryObjectExpr") and len(c.call_args()) == 4 for c in m.walk())]
+            if not rets:
+                continue  # the one-dimensional case returns begin()
+            seen.add((f.file, f.body.line))
+            cfg = CFG(f)
+            for r in rets:
+                cons = [c for c in r.walk() if c.k in ("CXXConstructExpr", "CXXTemporaryObjectExpr") and len(c.call_args()) == 4][0]
+                a = cons.call_args()
+                b, e = key(a[2].strip()), key(a[3].strip())
+                w = cfg.must_pass_from_entry([r], lambda x: _cmp_of(x, (b, e))) if r.i in cfg.pos else "?"
+                ok = w is None
+                ctx.ob(RULE, f.qn + ("() const" if f.is_const else "()"), "start-not-empty", ok, r.where(), "the full iterator starts at a sub-array whose range %s..%s was tested to be non-empty" % (b, e) if ok else "begin_all() starts at a sub-array without testing that it is non-empty (%s == %s is possible): iteration over an array whose first row is empty dereferences past the data" % (b, e))
+                n += 1
+    return n
+
+
+def rule_j_resize_default_initialises(ctx, defs):
+    """VectorWithOffset::resize(min,max) documents `new elements are set to T()`.  The allocated memory can still hold elements removed
+    by an earlier resize(), so this needs code: after the range has been set there is a loop over the whole new range that assigns
+    T() to num[i], skipping only i inside [K1, K2] where every value K1/K2 can take is the overlap of old and new range (or an empty
+    default)."""
+    RULE = "C11.j-resize-default-initialises-new-elements"
+    from engine.loops import bounds as lbounds
+
+    n = 0
+    for f in defs:
+        if not (f.cls == "stir::VectorWithOffset" and f.short == "resize" and len(f.params) == 2 and not f.is_dependent and f.body is not None and f.cfg_raw):
+            continue
+        fid = f.qn + "(" + f.sig + ")"
+        cfg = CFG(f)
+        defs_ = LocalDefs(f)
+        pmin, pmax = ("v%d" % p["d"] for p in f.params[:2])
+        res = [c for c in f.calls() if (c.callee or "").endswith("::reserve")]
+        found, why = False, "no loop assigning T() to the new elements after reserve()"
+        for lp in f.walk():
+            if lp.k != "ForStmt":
+                continue
+            asg = [m for m in lp.c[3].walk() if m.k in ("BinaryOperator", "CXXOperatorCallExpr") and m.op == "=" and key(m.c[-2].strip(), True).startswith("this.num[")]
+            asg = [m for m in asg if m.c[-1].strip().k in ("CXXScalarValueInitExpr", "CXXUnresolvedConstructExpr") or (m.c[-1].strip().k in ("CXXTemporaryObjectExpr", "CXXConstructExpr") and not m.c[-1].strip().call_args()) or key(m.c[-1].strip()) in ("0", "T()")]
+            if not asg:
+                continue
+            b = lbounds(lp)
+            if b is None:
+                why = "fill loop at line %d not in a recognised shape" % lp.line
+                continue
+            iv, lo, hi = "v%d" % b["d"], b["init"], b["upper"]
+            whole = lo in ("this.get_min_index()", pmin, "this.start") and hi in ("this.get_max_index()", pmax) and str(b.get("step", "1")) == "1"
+            after = all(cfg.dominates(r, lp.c[1]) if (r.i in cfg.pos and lp.c[1].i in cfg.pos) else False for r in res) and bool(res)
+            conds = [a for a in asg[0].ancestors() if a.k == "IfStmt" and _within(a, lp)]
+            kept_ok, kdet = True, "every new element"
+            if conds:
+                kept_ok = False
+                if len(conds) == 1:
+                    kk = key(conds[0].c[0].strip())
+                    mm = re.fullmatch(r"\(\|\| \(< %s (v\d+)\) \(> %s (v\d+)\)\)" % (iv, iv), kk) or re.fullmatch(r"\(\|\| \(> %s (v\d+)\) \(< %s (v\d+)\)\)" % (iv, iv), kk)
+                    if mm:
+                        k1, k2 = (mm.group(1), mm.group(2)) if kk.startswith("(|| (<") else (mm.group(2), mm.group(1))
+
+                        def values(v):
+                            d = int(v[1:])
+                            out = []
+                            if defs_.decl.get(d) is not None and defs_.decl[d].c:
+                                out.append(defs_.decl[d].c[0].strip())
+                            for w in defs_.writes.get(v, []):
+                                w = w.strip()
+                                out.append(w.c[1].strip() if w.k == "BinaryOperator" and w.op == "=" and len(w.c) == 2 else w)
+                            return out
+
+                        def resolves(e, fn_name, acc, par):
+                            ke = key(e)
+                            if e.k == "DeclRefExpr" and e.get("dk") == "local":
+                                i1 = defs_.single_def(e.get("d"))
+                                if i1 is not None:
+                                    ke = key(i1.strip())
+                            return ke in ("std::%s(this.%s(),%s)" % (fn_name, acc, par), "std::%s(%s,this.%s())" % (fn_name, par, acc))
+
+                        v1, v2 = values(k1), values(k2)
+                        ok1 = bool(v1) and all(resolves(e, "max", "get_min_index", pmin) or key(e) == "(+ %s 1)" % pmax for e in v1)
+                        ok2 = bool(v2) and all(resolves(e, "min", "get_max_index", pmax) or key(e) == pmax for e in v2)
+                        kept_ok = ok1 and ok2
+                        kdet = "every element outside the overlap [%s, %s] of the old and the new range" % (k1, k2)
+                        if not kept_ok:
+                            # the values of the skipped range are written in a way this rule does not understand: no verdict
+                            ctx.unrec(fid, "the skipped range [%s, %s] of the fill loop is not expressed through the overlap of old and new range (%s ; %s)" % (k1, k2, ", ".join(key(e, True) for e in v1), ", ".join(key(e, True) for e in v2)))
+                            return n
+                    else:
+                        kdet = "guard `%s` not of the form i < K1 || i > K2" % key(conds[0].c[0], True)
+                else:
+                    kdet = "more than one condition around the assignment"
+            if whole and after and kept_ok:
+                found, why = True, "after reserve(), T() is assigned to %s of the new range [%s, %s]" % (kdet, lo, hi)
+                break
+            why = "fill loop at line %d: %s%s%s" % (lp.line, "" if whole else "does not run over the whole new range (%s..%s); " % (lo, hi), "" if after else "not after reserve(); ", "" if kept_ok else kdet)
+        ctx.ob(RULE, fid, "new-elements-assigned-T()", found, f.where(), why if found else "elements that come back into the range inside the allocated memory keep their old contents (documented: `new elements are set to T()`): " + why)
+        n += 1
+        break
+    return n
+
+
+def _within(a, lp):
+    return any(x is a for x in lp.walk())
+
+
+def rule_k_empty_operand_range_unused(ctx, defs):
+    """An empty vector reports the index range [0,-1], which means nothing.  Wherever a member of the array classes computes a new range
+    for grow()/resize()/reserve() from the index range of an operand, the operand is known to be non-empty there."""
+    RULE = "C11.k-empty-operand-range-not-used"
+    n = 0
+    seen = set()
+    for f in defs:
+        if f.body is None or not f.cfg_raw or f.is_dependent or f.cls not in CLASSES or (f.file, f.body.line) in seen:
+            continue
+        params = {"v%d" % p["d"]: p for p in f.params if re.search(r"VectorWithOffset|Array", p["t"])}
+        if not params:
+            continue
+        cfg = None
+        for c in f.calls():
+            if (c.callee or "").split("::")[-1] not in ("grow", "resize"):  # reserve() only changes the capacity
+                continue
+            used = set()
+            for a in c.call_args():
+                for m in a.walk():
+                    if m.k == "CXXMemberCallExpr" and (m.callee or "").split("::")[-1] in ("get_min_index", "get_max_index") and m.c and key(m.c[0].strip()) in params:
+                        used.add(key(m.c[0].strip()))
+            if not used:
+                continue
+            seen.add((f.file, f.body.line))
+            cfg = cfg or CFG(f)
+            facts = cfg.facts_at(c) if c.i in cfg.pos else frozenset()
+            for v in sorted(used):
+                nonempty = any((k in ("(== %s.get_length() 0)" % v, "(== %s.size() 0)" % v, "%s.empty()" % v) and tv is False) or (k in ("(> %s.get_length() 0)" % v, "(> %s.size() 0)" % v, "(!= %s.get_length() 0)" % v, "(!= %s.size() 0)" % v) and tv is True) for k, tv, _r in facts)
+                ctx.ob(RULE, f.qn + "(" + f.sig[:60] + ")", "operand:" + params[v]["n"] if "n" in params[v] else v, nonempty, c.where(), "the operand is known to be non-empty where its index range enters %s()" % c.callee.split("::")[-1] if nonempty else "the index range of the operand enters %s() although the operand may be empty: its range is then [0,-1] and the result's range is extended towards 0 for no element" % c.callee.split("::")[-1])
+                n += 1
+    return n
+
+
 def run(ctx):
     ctx.explanation = (
         "Decides from the source, for VectorWithOffset, NumericVectorWithOffset and Array: (a) every raw subscript X.num[i] "
@@ -553,6 +719,12 @@ def run(ctx):
     else:
         ctx.fail_broken("anchor Array<N,T>::resize(const IndexRange<N>&) instantiation (N > 1) not found")
     ctx.require_count("C11.h-new-rows-start-empty", 1)
+    rule_i_full_iteration_skips_empty(ctx, defs)
+    ctx.require_count("C11.i-full-iteration-skips-empty", 3)
+    rule_j_resize_default_initialises(ctx, defs)
+    ctx.require_count("C11.j-resize-default-initialises-new-elements", 1)
+    rule_k_empty_operand_range_unused(ctx, defs)
+    ctx.require_count("C11.k-empty-operand-range-not-used", 4)
     ne = 0
     seen_e = set()
     for fn in defs:
